@@ -248,6 +248,7 @@ def run(ctx):
     # ---- parameter objects: a difference at any depth of an object's arguments moves the location (implementation + oracle;
     #      the text of an object is AutoParameterObject.repr, model TCV.AutoObj, compared in C02)
     object_pairs(ctx, root)
+    odd_value_pairs(ctx, root)
     keys, outs = model_keys(ctx, chains)
     for pi, (A, B, how) in enumerate(pairs):
         ca, cb = chains[2 * pi], chains[2 * pi + 1]
@@ -356,6 +357,42 @@ def object_pairs(ctx, root):
         if same:
             ctx.fail('two different computations share a storage location (they differ inside the arguments of a parameter object)', case,
                      {'paths': same, 'repr_A': ra, 'repr_B': rb})
+    b.cleanup_module()
+
+
+def odd_value_pairs(ctx, root):
+    """values at the edge of the domain: (i) strings with lone surrogates (file names from `os.fsdecode` with undecodable bytes) — the
+    library may refuse them, but if it assigns locations, different values get different ones; (ii) plain objects (no `repr` of their own) of
+    one class with different state — never one location for two of them"""
+    import os as _os
+    from taskchain import Config
+    spec = {'classes': {'K0': {'name': 'o', 'group': '', 'params': [{'name': 'v'}], 'inputs': [], 'kind': 'json', 'run_args': []}}, 'files': {}, 'main': None}
+    b = pl.materialize(spec, root / 'odd', modname=gen.fresh_modname())
+    cls = getattr(b.module(), pl.pyname('K0'))
+
+    class Knob:
+        def __init__(self, v):
+            self.v = v
+
+    def key_of(v):
+        try:
+            return Config(root / 'oddd', name='c', data={'tasks': [cls], 'v': v}).chain().tasks['o'].name_for_persistence
+        except (UnicodeEncodeError, ValueError, TypeError) as e:
+            return ('refused', type(e).__name__)
+    pairs = [(_os.fsdecode(b'caf\xe9.csv'), _os.fsdecode(b'caf\xf1.csv')), ('a\udc80b', 'a?b'), (['x', '\udcff'], ['x', '\udcfe']),
+             ({'k': 'p\udc80'}, {'k': 'p\ufffd'})]
+    for k, (a, b_) in enumerate(pairs):
+        case = {'probe': 'lone surrogates', 'pair': [ascii(a), ascii(b_)]}
+        ctx.case(case); ctx.count('odd-values:surrogates')
+        ka, kb = key_of(a), key_of(b_)
+        if isinstance(ka, str) and isinstance(kb, str) and ka == kb:
+            ctx.fail('two different parameter values got the same storage key', case, {'key': ka})
+    for k in range(ctx.n(4, 20)):
+        case = {'probe': 'plain objects with different state', 'states': [k, k + 1]}
+        ctx.case(case); ctx.count('odd-values:plain-objects')
+        ka, kb = key_of(Knob(k)), key_of(Knob(k + 1))
+        if isinstance(ka, str) and ka == kb:
+            ctx.fail('two different parameter values got the same storage key', case, {'key': ka})
     b.cleanup_module()
 
 
